@@ -47,6 +47,10 @@ def opt(x, f, if_none):
     return f(x)
 
 
+def conf_wf_(c):
+    return And_(ubf_inv(c.source_entity_id), ubf_inv(c.dest_entity_id), ubf_inv(c.transaction_seq_num))
+
+
 def step_is_(st, *steps):
     return one_of(st.step, list(steps))
 
@@ -76,6 +80,15 @@ def dest_inv(h):
             Implies_(isnone(ap.procedure_timer), ap.nak_activity_counter == 0))),
         ("D14.metadata_only_not_before_metadata", Implies_(Or_(step_is_(st, STEP.IDLE, STEP.WAITING_FOR_METADATA), B(ap.metadata_missing)),
                                                            Not_(B(fp.metadata_only)))),
+        # C11: an idle handler holds a parameter block with constructor values
+        ("D13.idle_is_fresh", Implies_(eq(st.state, IDLE), And_(
+            Not_(B(ap.deferred_lost_segment_detection_active)), Not_(B(ap.metadata_missing)), isnone(ap.procedure_timer),
+            ap.nak_activity_counter == 0, isnone(pa.ack_timer), pa.ack_counter == 0, isnone(p.check_timer), p.current_check_count == 0,
+            fp.progress == 0, isnone(fp.file_size_eof), isnone(fp.file_size), Not_(B(fp.metadata_only)),
+            eq(p.completion_disposition, COMPLETED), eq(p.finished_params.delivery_code, DeliveryCode.DATA_INCOMPLETE),
+            eq(p.finished_params.condition_code, CC.NO_ERROR), ap.last_start_offset == 0, ap.last_end_offset == 0,
+            ap.lost_seg_tracker.lost_segments.d.n == 0, isnone(p.transaction_id), isnone(p.remote_cfg)))),
+        ("D18.header_fields_well_formed", Implies_(ne(st.state, IDLE), conf_wf_(p.pdu_conf))),
         ("D17.direction_towards_sender", Implies_(ne(st.state, IDLE), eq(p.pdu_conf.direction, Direction.TOWARDS_SENDER))),
         ("D7.counters", And_(fp.progress >= 0, ap.last_start_offset >= 0, ap.last_start_offset <= ap.last_end_offset)),
     ]
@@ -259,7 +272,7 @@ def _fin_pdu_is_live(n):
 
 
 C("_handle_positive_ack_procedures", arg_types=SELF, props=("C04",), result=None,
-  requires=REQ_INV + [("DestInvTracker", lambda o: tracker_inv(o.self))] + DEFAULT + [("in_ack_wait", _pa_pre)],
+  requires=REQ_INV + [("DestInvTracker", lambda o: tracker_inv(o.self)), ("DestStepInv", lambda o: step_inv(o.self))] + DEFAULT + [("in_ack_wait", _pa_pre)],
   modifies=["self._params.positive_ack_params.ack_counter", "self._params.positive_ack_params.ack_timer",
             "self._params.positive_ack_params.ack_timer.expired", "self._pdus_to_be_sent", "self.states._num_packets_ready", "self.states.step", "self.states.state",
             "self._params.finished_params.condition_code", "self._params.finished_params.file_status",
@@ -535,7 +548,9 @@ C("_handle_transfer_completion", arg_types=SELF, props=("C12", "C15", "C02"), re
 
 
 C("_prepare_finished_pdu", arg_types=SELF, props=("C15", "C10"), result=None,
-  requires=REQ_INV + [("busy", lambda o: ne(o.self.states.state, IDLE))],
+  requires=REQ_INV + [("busy", lambda o: ne(o.self.states.state, IDLE)),
+                      ("resend_after_timer_reset", lambda o: Implies_(step_is(o.self, STEP.WAITING_FOR_FINISHED_ACK), opt(
+                          o.self._params.positive_ack_params.ack_timer, lambda t: Not_(B(t.expired)), True)))],
   modifies=["self._pdus_to_be_sent", "self.states._num_packets_ready"],
   ensures=[
       Clause("C15.finished_pdu_carries_live_params", lambda o, n, r: _fin_pdu_is_live(n) and len(emitted(n)) == 1 and And_(
@@ -597,6 +612,9 @@ C("_handle_eof_pdu", arg_types={**SELF, "eof_pdu": T.Obj(EofPdu)}, props=("C12",
       # successful one, see DESIGN: environment assumption on the filestore), and no EOF was seen before
       ("acked_extent", lambda o: Implies_(eq(mode(o.self), ACK), And_(
           o.self._params.acked_params.last_end_offset <= o.self._params.fp.progress, isnone(o.self._params.fp.file_size_eof)))),
+      # F21: an EOF (cancel) PDU announces at least the data the receiver already has (honest sender: its progress)
+      ("cancel_eof_covers_received_data", lambda o: Implies_(And_(eq(mode(o.self), ACK), _eof_is_cancel(o)),
+                                                            o.eof_pdu.file_size >= o.self._params.acked_params.last_end_offset)),
       ("pdu_wf", lambda o: pdu_wf(o.eof_pdu)),
       ("not_cancelled", lambda o: ne(o.self._params.completion_disposition, CANCELED)),
       ("file_params", lambda o: Not_(B(o.self._params.fp.metadata_only))),
@@ -647,7 +665,7 @@ C("_handle_eof_pdu", arg_types={**SELF, "eof_pdu": T.Obj(EofPdu)}, props=("C12",
           [TR.X], TR.view(trk(n.self), TR.X) == z3.Or(TR.view(trk(o.self), TR.X), z3.And(
               o.self._params.fp.progress <= TR.X, TR.X < o.eof_pdu.file_size)))), ("C06",)),
       Clause("inv.tracker", lambda o, n, r: tracker_inv(n.self), ("C06",)),
-      Clause("D16.eof_size_covers_all_segments", lambda o, n, r: Implies_(And_(eq(mode(o.self), ACK), Not_(_eof_is_cancel(o)),
+      Clause("D16.eof_size_covers_all_segments", lambda o, n, r: Implies_(And_(eq(mode(o.self), ACK),
                                                                                 step_is(n.self, STEP.SENDING_EOF_ACK_PDU)),
              o.eof_pdu.file_size >= n.self._params.acked_params.last_end_offset), ("C06",)),
   ] + inv_clauses(("C12",)),
@@ -740,8 +758,8 @@ C("_reset_nak_activity_parameters", arg_types=SELF, props=("C04",), result=None,
   modifies=["self._params.acked_params.nak_activity_counter", "self._params.acked_params.procedure_timer.expired"],
   ensures=[Clause("C04.nak.progress_resets_count_and_timer", lambda o, n, r: And_(
       n.self._params.acked_params.nak_activity_counter == 0,
-      opt(n.self._params.acked_params.procedure_timer, lambda t: Not_(B(t.expired)), False),
-      len(timer_resets(n)) == 1), ("C04",))],
+      opt(n.self._params.acked_params.procedure_timer, lambda t: Not_(B(t.expired)), False)), ("C04",)),
+      Clause("C04.nak.timer_restarted_once", lambda o, n, r: len(timer_resets(n)) == 1, ("C04",))],
   effects={"timer"}, modular=False)
 
 
@@ -979,7 +997,8 @@ C("_lost_segment_handling", arg_types={**SELF, "offset": T.Int, "data_len": T.In
                  z3.And(o.offset <= TR.X, TR.X < o.offset + o.data_len))))), ("C06",)),
       Clause("C06.otherwise_tracker_unchanged", lambda o, n, r: Implies_(And_(Not_(_lsh_gap(o)), Not_(_lsh_retransmitted(o))),
              z3.ForAll([TR.X], TR.view(trk(n.self), TR.X) == TR.view(trk(o.self), TR.X))), ("C06",)),
-      Clause("inv.tracker", lambda o, n, r: Implies_(Or_(Not_(_lsh_retransmitted(o)), _seg_clean(o)), tracker_inv(n.self)), ("C06", "C10")),
+      Clause("inv.tracker", lambda o, n, r: tracker_inv(n.self), ("C06", "C10")),
+      Clause("C06.segments_still_tracked_up_to_last_end", lambda o, n, r: segments_tracked_up_to_last_end(n.self), ("C06",)),
       Clause("queue.counter", lambda o, n, r: to_z3_int(n.self.states._num_packets_ready) == n.self._pdus_to_be_sent.length(), ("C06",)),
       Clause("C06.no_other_output", lambda o, n, r: len(inds(n)) == 0 and len(fault_cbs(n)) == 0 and len(vfs_ops(n)) == 0, ("C06",)),
   ],
@@ -1020,6 +1039,17 @@ def _rejected(n):
     return [e for e in n.trace if e["kind"] == "vfs_rejected"]
 
 
+def _rejected_or_assumed_not(n):
+    """EA-1 (environment assumption, DESIGN section 5): where this function is summarised by its contract (the
+    dispatcher), the filestore is assumed not to reject a write to the file it created for this transaction; the
+    function itself is verified for both outcomes"""
+    from pyvc.spec import TraceUnavailable
+    try:
+        return _rejected(n)
+    except TraceUnavailable:
+        return []
+
+
 def _fd_size_error(o):
     return opt(o.self._params.fp.file_size_eof, lambda s: _fd_end(o) > s, False)
 
@@ -1032,7 +1062,7 @@ def _fd_pre(o):
     h = o.self
     return And_(ne(h.states.state, IDLE), Not_(isnone(h._params.transaction_id)), Not_(isnone(h._params.remote_cfg)),
                 step_is(h, STEP.RECEIVING_FILE_DATA, STEP.RECV_FILE_DATA_WITH_CHECK_LIMIT_HANDLING, STEP.WAITING_FOR_MISSING_DATA),
-                pdu_wf(o.file_data_pdu), qempty(h))
+                pdu_wf(o.file_data_pdu))
 
 
 C("_handle_fd_pdu", arg_types={**SELF, "file_data_pdu": T.Obj(_FD)}, props=("C05", "C15", "C14", "C01"), result=None,
@@ -1067,6 +1097,10 @@ C("_handle_fd_pdu", arg_types={**SELF, "file_data_pdu": T.Obj(_FD)}, props=("C05
                   eq(_fpar(n.self).file_status, FileStatus.DISCARDED_FILESTORE_REJECTION),
                   eq(n.self._params.completion_disposition, CANCELED))),
               Implies_(eq(_fpar(o.self).file_status, FileStatus.FILE_RETAINED), no_fault(n))))(_rejected(n))), ("C14", "C01")),
+      Clause("inv.step", lambda o, n, r: Implies_(ne(n.self.states.state, IDLE),
+                                                  True if _rejected_or_assumed_not(n) else step_inv(n.self)), ("C10", "C03")),
+      Clause("step.unchanged_or_completion", lambda o, n, r: Implies_(ne(n.self.states.state, IDLE), Or_(
+          Eq_(n.self.states.step, o.self.states.step), step_is(n.self, STEP.TRANSFER_COMPLETION))), ("C05",)),
       Clause("C06.only_acked_mode_tracks_segments", lambda o, n, r: Implies_(eq(mode(o.self), UNACK), And_(
           len(emitted(n)) == 0, unchanged(o, n, "_params.acked_params.last_end_offset", "_params.acked_params.last_start_offset"))), ("C06",)),
   ] + inv_clauses(("C05",)),
@@ -1197,10 +1231,11 @@ DL_MOD = ["self._pdus_to_be_sent", "self.states._num_packets_ready",
 
 def _dl_pre(o):
     h = o.self
-    return And_(ne(h.states.state, IDLE), Not_(isnone(h._params.transaction_id)), Not_(isnone(h._params.remote_cfg)),
-                Implies_(B(_ap(h).deferred_lost_segment_detection_active), And_(
-                    nak_cfg_valid(h), step_is(h, STEP.WAITING_FOR_METADATA, STEP.WAITING_FOR_MISSING_DATA),
-                    Or_(_ck_trivial(o), Not_(isnone(h._params.fp.crc32))))))
+    return Implies_(B(_ap(h).deferred_lost_segment_detection_active), And_(
+        ne(h.states.state, IDLE), Not_(isnone(h._params.transaction_id)), Not_(isnone(h._params.remote_cfg)),
+        nak_cfg_valid(h), step_is(h, STEP.WAITING_FOR_METADATA, STEP.WAITING_FOR_MISSING_DATA, STEP.TRANSFER_COMPLETION,
+                                  STEP.SENDING_EOF_ACK_PDU),
+        Or_(_ck_trivial(o), Not_(isnone(h._params.fp.crc32)))))
 
 
 def _final_nak_ok(o, n):
@@ -1210,7 +1245,10 @@ def _final_nak_ok(o, n):
 
 
 C("_deferred_lost_segment_handling", arg_types=SELF, props=("C04", "C06"), result=None,
-  requires=REQ_INV + REQ_TRK + DEFAULT + [("deferred_step", _dl_pre)],
+  requires=REQ_INV + DEFAULT + [
+      ("DestInvTracker", lambda o: Implies_(ne(o.self.states.state, IDLE), tracker_inv(o.self))),
+      ("DestStepInv", lambda o: Implies_(ne(o.self.states.state, IDLE), step_inv(o.self))),
+      ("deferred_step", _dl_pre)],
   modifies=DL_MOD,
   cond_frames=[
       ("C04.nak.inactive_is_noop", lambda o: Not_(B(_ap(o.self).deferred_lost_segment_detection_active)), [], {"silent": True}),
@@ -1258,7 +1296,7 @@ C("_deferred_lost_segment_handling", arg_types=SELF, props=("C04", "C06"), resul
 def _busy_acked(o):
     h = o.self
     return And_(ne(h.states.state, IDLE), Not_(isnone(h._params.transaction_id)), Not_(isnone(h._params.remote_cfg)),
-                eq(mode(h), ACK), qempty(h))
+                eq(mode(h), ACK))
 
 
 FDWM_MOD = ["self._params.fp.progress", "self._params.acked_params.lost_seg_tracker.lost_segments",
@@ -1343,7 +1381,8 @@ C("_handle_eof_without_previous_metadata", arg_types={**SELF, "eof_pdu": T.Obj(E
           step_is(n.self, STEP.SENDING_EOF_ACK_PDU), n.self._pdus_to_be_sent.length() == o.self._pdus_to_be_sent.length() + 1), ("C03", "C02")),
       Clause("C05.nothing_written", lambda o, n, r: len(vfs_ops(n)) == 0 and len(fault_cbs(n)) == 0, ("C05",)),
       Clause("queue.counter", lambda o, n, r: to_z3_int(n.self.states._num_packets_ready) == n.self._pdus_to_be_sent.length(), ("C06",)),
-      Clause("inv.tracker", lambda o, n, r: Implies_(Or_(o.eof_pdu.file_size > 0, isnone(o.self._params.fp.file_size_eof)),
+      Clause("inv.tracker", lambda o, n, r: Implies_(Or_(o.eof_pdu.file_size > 0, isnone(o.self._params.fp.file_size_eof),
+                                                         Eq_(o.self._params.fp.file_size_eof, o.eof_pdu.file_size)),
                                                      tracker_inv(n.self)), ("C06", "C10")),
   ],
   effects={"user"}, modular=True)
@@ -1394,6 +1433,13 @@ C("_handle_waiting_for_missing_metadata", arg_types={**SELF, "packet_holder": T.
   props=("C03", "C04", "C06", "C10"), result=None,
   requires=REQ_INV + REQ_TRK + DEFAULT + [("waiting_for_metadata", _wmm_pre),
             ("names_together", lambda o: (_hp(o).dest_file_name is None) == (_hp(o).source_file_name is None) if _hp_is(o, MetadataPdu) else True),
+            ("fd_only_before_eof", lambda o: (isnone(o.self._params.fp.file_size_eof) if _hp_is(o, _FD) else True)),
+            # (an empty File Data PDU moves `progress` backwards here; part of finding F13)
+            ("nonempty_file_data", lambda o: (_hp(o).file_data.length() > 0 if _hp_is(o, _FD) else True)),
+            # a repeated EOF PDU announces the same file size as the first one
+            ("eof_size_consistent", lambda o: (And_(Or_(isnone(o.self._params.fp.file_size_eof), Eq_(
+                o.self._params.fp.file_size_eof, _hp(o).file_size)), _hp(o).file_size >= _ap(o.self).last_end_offset)
+                if _hp_is(o, EofPdu) else True)),
             # F13: a File Data PDU arriving here when ranges are already tracked re-keys the entry at 0 (known finding)
             ("extent_not_tracked", lambda o: (Implies_(_hp(o).file_data.length() > 0, z3.ForAll([TR.X], z3.Implies(
                 0 <= TR.X, z3.Not(TR.view(trk(o.self), TR.X)))))
@@ -1414,6 +1460,10 @@ C("_handle_waiting_for_missing_metadata", arg_types={**SELF, "packet_holder": T.
           Implies_(_hp(o).file_data.length() > 0, z3.ForAll([TR.X], TR.view(trk(n.self), TR.X) == z3.Or(
               TR.view(trk(o.self), TR.X), z3.And(0 <= TR.X, TR.X < _hp(o).offset + _hp(o).file_data.length()))))
           if _hp_is(o, _FD) else True), ("C06",)),
+      # F13: File Data arriving here after the EOF PDU (ranges already tracked) breaks the bookkeeping: excluded by the
+      # precondition `extent_not_tracked`; without an EOF so far the invariants are kept
+      Clause("inv.tracker", lambda o, n, r: Implies_(ne(n.self.states.state, IDLE), tracker_inv(n.self)), ("C10", "C06")),
+      Clause("inv.step", lambda o, n, r: Implies_(ne(n.self.states.state, IDLE), step_inv(n.self)), ("C10", "C03")),
       Clause("C03.metadata_ends_the_wait", lambda o, n, r: (
           Implies_(ne(n.self.states.state, IDLE), And_(Not_(B(_ap(n.self).metadata_missing)), Not_(step_is(n.self, STEP.WAITING_FOR_METADATA))))
           if _hp_is(o, MetadataPdu) else True), ("C03", "C02")),
@@ -1433,7 +1483,7 @@ def _sd_pre(o):
     h = o.self
     return And_(_busy_acked(o), step_is(h, STEP.SENDING_EOF_ACK_PDU), Not_(isnone(h._params.fp.file_size_eof)),
                 opt(h._params.fp.file_size_eof, lambda s: And_(s >= 0, s >= _ap(h).last_end_offset), False), nak_cfg_valid(h),
-                isnone(_ap(h).procedure_timer), Not_(_deferred(h)), Or_(_ck_trivial(o), Not_(isnone(h._params.fp.crc32))))
+                Or_(_ck_trivial(o), Not_(isnone(h._params.fp.crc32))))
 
 
 C("_start_deferred_lost_segment_handling", arg_types=SELF, props=("C06", "C03", "C04"), result=None,
@@ -1441,17 +1491,17 @@ C("_start_deferred_lost_segment_handling", arg_types=SELF, props=("C06", "C03", 
                                           ("something_missing", lambda o: Or_(trk(o.self).n > 0, B(_ap(o.self).metadata_missing)))],
   modifies=SD_MOD,
   ensures=[
-      Clause("C03.deferred_procedure_started_and_serviced", lambda o, n, r: And_(
+      Clause("C03.deferred_procedure_started_and_serviced", lambda o, n, r: Implies_(isnone(_ap(o.self).procedure_timer), And_(
           _deferred(n.self), Implies_(B(_ap(o.self).metadata_missing), step_is(n.self, STEP.WAITING_FOR_METADATA)),
           Implies_(Not_(B(_ap(o.self).metadata_missing)), step_is(n.self, STEP.WAITING_FOR_MISSING_DATA)),
-          Not_(isnone(_ap(n.self).procedure_timer)), _ap(n.self).nak_activity_counter == 0), ("C03", "C04")),
+          Not_(isnone(_ap(n.self).procedure_timer)), _ap(n.self).nak_activity_counter == 0)), ("C03", "C04")),
       Clause("C06.coalescing_keeps_the_missing_set", lambda o, n, r: z3.ForAll(
           [TR.X], TR.view(trk(n.self), TR.X) == TR.view(trk(o.self), TR.X)), ("C06", "C18")),
       Clause("C06.extent_is_eof_size_from_now_on", lambda o, n, r: And_(
           n.self._params.acked_params.last_end_offset == val(o.self._params.fp.file_size_eof),
           n.self._params.acked_params.last_start_offset == val(o.self._params.fp.file_size_eof)), ("C06",)),
-      Clause("C04.nak.first_sequence_issued_at_once", lambda o, n, r: len(emitted(n)) <= 1 and len(fault_cbs(n)) == 0
-             and len(inds(n)) == 0, ("C04", "C06")),
+      Clause("C04.nak.first_sequence_issued_at_once", lambda o, n, r: Implies_(
+          isnone(_ap(o.self).procedure_timer), len(fault_cbs(n)) == 0 and len(inds(n)) == 0), ("C04", "C06")),
       Clause("inv.tracker", lambda o, n, r: Implies_(val(o.self._params.fp.file_size_eof) >= o.self._params.acked_params.last_end_offset,
                                                      tracker_inv(n.self)), ("C06",)),
   ] + inv_clauses(("C03",)),
@@ -1467,8 +1517,7 @@ C("_fsm_advancement_after_packets_were_sent", arg_types=SELF, props=("C01", "C06
       ("eof_ack_step", lambda o: Implies_(step_is(o.self, STEP.SENDING_EOF_ACK_PDU), And_(
           eq(mode(o.self), ACK), Not_(isnone(o.self._params.fp.file_size_eof)),
           opt(o.self._params.fp.file_size_eof, lambda s: And_(s >= 0, s >= _ap(o.self).last_end_offset), False),
-          nak_cfg_valid(o.self), isnone(_ap(o.self).procedure_timer), Not_(_deferred(o.self)),
-          Or_(_ck_trivial(o), Not_(isnone(o.self._params.fp.crc32)))))),
+          nak_cfg_valid(o.self), Or_(_ck_trivial(o), Not_(isnone(o.self._params.fp.crc32)))))),
   ],
   modifies=FA_MOD,
   cond_frames=[("C10.other_steps_untouched", lambda o: Not_(step_is(o.self, STEP.SENDING_EOF_ACK_PDU)), [], {"silent": True})],
@@ -1481,7 +1530,7 @@ C("_fsm_advancement_after_packets_were_sent", arg_types=SELF, props=("C01", "C06
                   len(vfs_ops(n)) == 0, unchanged(o, n, "_params.finished_params.condition_code", "_params.finished_params.delivery_code"))),
               Implies_(And_(ne(o.self._params.completion_disposition, CANCELED), Not_(_ck_trivial(o))),
                        len(vfs_ops(n, "calculate_checksum")) == 1))),
-          Implies_(Or_(trk(o.self).n > 0, B(_ap(o.self).metadata_missing)), And_(
+          Implies_(And_(Or_(trk(o.self).n > 0, B(_ap(o.self).metadata_missing)), isnone(_ap(o.self).procedure_timer)), And_(
               _deferred(n.self), step_is(n.self, STEP.WAITING_FOR_METADATA, STEP.WAITING_FOR_MISSING_DATA))))), ("C06", "C01", "C12", "C03")),
       Clause("inv.tracker", lambda o, n, r: Implies_(Or_(Not_(step_is(o.self, STEP.SENDING_EOF_ACK_PDU)), opt(
           o.self._params.fp.file_size_eof, lambda s: s >= o.self._params.acked_params.last_end_offset, True)), tracker_inv(n.self)), ("C06",)),
@@ -1643,7 +1692,10 @@ DFSM_MOD = sorted(set(FA_MOD + FD_MOD + WMM_MOD + EOF_MOD + WFA_MOD + NOC_MOD + 
 
 DFSM_CALLEES = {"DestHandler._fsm_advancement_after_packets_were_sent", "DestHandler._handle_fd_pdu",
                 "DestHandler._handle_waiting_for_missing_metadata", "DestHandler._deferred_lost_segment_handling",
-                "DestHandler._handle_waiting_for_finished_ack"}
+                "DestHandler._handle_waiting_for_finished_ack", "DestHandler._handle_eof_pdu",
+                "DestHandler._check_limit_handling", "DestHandler._handle_transfer_completion",
+                "DestHandler._prepare_finished_pdu", "DestHandler._handle_finished_pdu_sent",
+                "DestHandler._reset_nak_activity_parameters"}
 
 
 def step_inv(h):
@@ -1655,22 +1707,30 @@ def step_inv(h):
         Implies_(step_is(h, STEP.RECV_FILE_DATA_WITH_CHECK_LIMIT_HANDLING, STEP.SENDING_EOF_ACK_PDU, STEP.WAITING_FOR_MISSING_DATA),
                  And_(Not_(isnone(fp.crc32)), Not_(isnone(fp.file_size_eof)))),
         Implies_(B(ap.deferred_lost_segment_detection_active), And_(
-            Not_(isnone(fp.crc32)), Not_(isnone(ap.procedure_timer)), nak_cfg_valid(h),
-            Implies_(ne(h.states.state, IDLE), step_is(h, STEP.WAITING_FOR_METADATA, STEP.WAITING_FOR_MISSING_DATA,
+            Not_(isnone(fp.crc32)), Not_(isnone(ap.procedure_timer)), segments_tracked_up_to_last_end(h),
+            Implies_(ne(h.states.state, IDLE), step_is(h, STEP.WAITING_FOR_METADATA, STEP.WAITING_FOR_MISSING_DATA, STEP.SENDING_EOF_ACK_PDU,
                                                       STEP.TRANSFER_COMPLETION, STEP.SENDING_FINISHED_PDU, STEP.WAITING_FOR_FINISHED_ACK)))),
+        Implies_(And_(step_is(h, STEP.SENDING_EOF_ACK_PDU), B(ap.metadata_missing)), And_(
+            ne(p.completion_disposition, CANCELED), eq(p.finished_params.delivery_code, DeliveryCode.DATA_INCOMPLETE))),
         Implies_(Not_(B(ap.deferred_lost_segment_detection_active)), Implies_(step_is(
             h, STEP.RECEIVING_FILE_DATA, STEP.SENDING_EOF_ACK_PDU, STEP.WAITING_FOR_METADATA), isnone(ap.procedure_timer))),
-        Implies_(step_is(h, STEP.WAITING_FOR_METADATA), And_(eq(m, ACK), B(ap.metadata_missing))),
+        Implies_(step_is(h, STEP.WAITING_FOR_METADATA), And_(
+            eq(m, ACK), B(ap.metadata_missing), ne(p.completion_disposition, CANCELED),
+            eq(p.finished_params.delivery_code, DeliveryCode.DATA_INCOMPLETE),
+            Implies_(Not_(B(ap.deferred_lost_segment_detection_active)), And_(isnone(fp.file_size_eof), ap.last_end_offset <= fp.progress)),
+            Implies_(B(ap.deferred_lost_segment_detection_active), opt(fp.file_size_eof, lambda s: ap.last_end_offset == s, False)))),
         Implies_(step_is(h, STEP.WAITING_FOR_MISSING_DATA), And_(eq(m, ACK), B(ap.deferred_lost_segment_detection_active),
                                                                    Not_(B(ap.metadata_missing)))),
         Implies_(step_is(h, STEP.RECEIVING_FILE_DATA, STEP.RECV_FILE_DATA_WITH_CHECK_LIMIT_HANDLING), Not_(B(ap.metadata_missing))),
         Implies_(step_is(h, STEP.SENDING_EOF_ACK_PDU), And_(
-            eq(m, ACK), opt(fp.file_size_eof, lambda s: s >= 0, False), nak_cfg_valid(h))),
+            eq(m, ACK), opt(fp.file_size_eof, lambda s: s >= 0, False))),
         # acknowledged mode, file data phase: the extent is the end of the furthest segment and is covered by progress
         Implies_(And_(eq(m, ACK), step_is(h, STEP.RECEIVING_FILE_DATA)), And_(isnone(fp.file_size_eof), ap.last_end_offset <= fp.progress)),
         Implies_(And_(eq(m, ACK), step_is(h, STEP.WAITING_FOR_MISSING_DATA)), segments_tracked_up_to_last_end(h)),
-        Implies_(And_(eq(m, ACK), step_is(h, STEP.SENDING_EOF_ACK_PDU), ne(p.completion_disposition, CANCELED)),
-                 opt(fp.file_size_eof, lambda s: s >= ap.last_end_offset, True)),
+        Implies_(And_(eq(m, ACK), step_is(h, STEP.SENDING_EOF_ACK_PDU)), opt(fp.file_size_eof, lambda s: s >= ap.last_end_offset, True)),
+        # a Finished PDU queued in this very call has a freshly started acknowledgement timer
+        Implies_(And_(step_is(h, STEP.WAITING_FOR_FINISHED_ACK), h._pdus_to_be_sent.length() > 0),
+                 opt(p.positive_ack_params.ack_timer, lambda t: Not_(B(t.expired)), False)),
         Implies_(step_is(h, STEP.RECEIVING_FILE_DATA, STEP.RECV_FILE_DATA_WITH_CHECK_LIMIT_HANDLING, STEP.WAITING_FOR_MISSING_DATA,
                          STEP.WAITING_FOR_METADATA, STEP.SENDING_EOF_ACK_PDU),
                  And_(Not_(B(fp.metadata_only)))),
@@ -1682,26 +1742,45 @@ def step_inv(h):
 REQ_STEP = [("DestStepInv", lambda o: step_inv(o.self))]
 
 
-def _dfsm_contract(step):
-    c = C("__non_idle_fsm", instance=step.name, arg_types={**SELF, "packet": T.Opaque}, setup=_dfsm_setup,
+def mid_condition(h):
+    """what holds between any two statements of __non_idle_fsm (and at its entry and exit): the handler invariant, and
+    for a busy handler the tracker and step invariants"""
+    busy = ne(h.states.state, IDLE)
+    return And_(inv_formula(h), Implies_(busy, And_(
+        Not_(isnone(h._params.transaction_id)), Not_(isnone(h._params.remote_cfg)), tracker_inv(h), step_inv(h))))
+
+
+Q0 = z3.Int("queue_len_at_call_entry")
+
+# body of __non_idle_fsm: 0 advancement, 1 holder, 2 receiving FD/EOF, 3 waiting for metadata, 4 check limit,
+# 5 waiting for missing data, 6 transfer completion, 7 sending finished, 8 waiting for finished ack
+DFSM_SLICES = {"ADVANCE": ((), 0), "RECEIVING": ((1,), 2), "WAITING_FOR_METADATA": ((1,), 3), "CHECK_LIMIT": ((1,), 4),
+               "WAITING_FOR_MISSING_DATA": ((1,), 5), "TRANSFER_COMPLETION": ((1,), 6), "SENDING_FINISHED_PDU": ((1,), 7),
+               "WAITING_FOR_FINISHED_ACK": ((1,), 8)}
+
+
+def _dfsm_contract(label, sl):
+    first = sl[1] == 0
+    c = C("__non_idle_fsm", instance=label, arg_types={**SELF, "packet": T.Opaque}, setup=_dfsm_setup,
           props=("C10", "C16", "C05"), result=None,
-          requires=REQ_INV + REQ_TRK + REQ_STEP + DEFAULT + [
-              ("busy", lambda o: And_(ne(o.self.states.state, IDLE), Not_(isnone(o.self._params.transaction_id)),
-                                      Not_(isnone(o.self._params.remote_cfg)))),
-              ("admitted", _d_admitted), ("step", lambda o, step=step: step_is(o.self, step))],
+          requires=[("MidCondition", lambda o: mid_condition(o.self))] + DEFAULT + [
+              ("admitted", lambda o: Implies_(ne(o.self.states.state, IDLE), _d_admitted(o))),
+              # ghost: length of the outbound queue when state_machine() was called; the first statement raises unless it
+              # is zero, so it is zero for every later statement
+              ("queue_at_entry", (lambda o: And_(ne(o.self.states.state, IDLE), o.self._pdus_to_be_sent.length() == Q0)) if first
+               else (lambda o: Q0 == 0))],
           modifies=DFSM_MOD,
-          ensures=inv_clauses(("C10",)) + [
-              Clause("inv.tracker", lambda o, n, r: Implies_(ne(n.self.states.state, IDLE), tracker_inv(n.self)), ("C10", "C06")),
-              Clause("inv.step", lambda o, n, r: Implies_(ne(n.self.states.state, IDLE), step_inv(n.self)), ("C10", "C03")),
-              # C05: every filestore mutation of this call addresses the resolved destination file
+          ensures=[
+              Clause("mid_condition", lambda o, n, r: mid_condition(n.self), ("C10", "C06", "C03")),
+              # C05: every filestore mutation addresses the resolved destination file
               Clause("C05.only_the_destination_file_is_touched", lambda o, n, r: And_(*[
                   Or_(Eq_(e["path"], o.self._params.fp.file_name), Eq_(e["path"], n.self._params.fp.file_name))
                   for e in vfs_ops(n) if e.get("path") is not None and e["op"] in ("write_data", "delete_file", "truncate_file", "create_file")]),
                   ("C05",)),
           ],
           raises=[
-              RaiseClause("C10.unretrieved_truthful", D.UnretrievedPdusToBeSent, iff=False,
-                          when=lambda o: True, props=("C10",), modifies=DFSM_MOD),
+              # C10: "unretrieved PDUs" is only ever raised when PDUs were queued when the call was made
+              RaiseClause("C10.unretrieved_truthful", D.UnretrievedPdusToBeSent, when=lambda o: Q0 > 0, props=("C10",), modifies=DFSM_MOD),
               RaiseClause("F5b.tracker_value_error_leaks", ValueError, when=lambda o: o.packet is not None and o.packet.cls is _FD,
                           props=("C10",), modifies=DFSM_MOD),
               RaiseClause("vfs.truncate_race", FileNotFoundError, when=lambda o: o.packet is not None and o.packet.cls is MetadataPdu,
@@ -1709,11 +1788,42 @@ def _dfsm_contract(step):
           ],
           effects={"vfs", "user", "timer", "fault_cb"}, modular=True)
     c.contract_callees = set(DFSM_CALLEES)
-    c.cost_hint = 4
+    c.slice = sl
+    c.n_body_statements = 9
     c.call_default = False
     return c
 
 
-for _st in STEP:
-    if _st is not STEP.IDLE and _st is not STEP.TRANSACTION_START:
-        _dfsm_contract(_st)
+for _lbl, _sl in DFSM_SLICES.items():
+    _dfsm_contract(_lbl, _sl)
+
+
+# ---------------------------------------------------------------------------------------------- inductive step invariant
+# every function the dispatcher summarises by its contract assumes and re-establishes the tracker and step invariants
+_FSM_SUMMARISED = ["_start_deferred_lost_segment_handling", "_fsm_advancement_after_packets_were_sent", "_handle_fd_pdu", "_handle_waiting_for_missing_metadata",
+                   "_deferred_lost_segment_handling", "_handle_waiting_for_finished_ack", "_handle_eof_pdu",
+                   "_check_limit_handling", "_handle_transfer_completion", "_prepare_finished_pdu", "_handle_finished_pdu_sent",
+                   "__idle_fsm"]
+
+
+def _strengthen(c):
+    labels = {l for l, _ in c.requires}
+    if "DestInvTracker" not in labels:
+        c.requires.append(("DestInvTracker", lambda o: Implies_(ne(o.self.states.state, IDLE), tracker_inv(o.self))))
+    if "DestStepInv" not in labels and not c.fq.endswith("__idle_fsm"):
+        c.requires.append(("DestStepInv", lambda o: Implies_(ne(o.self.states.state, IDLE), step_inv(o.self))))
+    have = {cl.label for cl in c.ensures}
+    if "inv.tracker" not in have:
+        c.ensures.append(Clause("inv.tracker", lambda o, n, r: Implies_(ne(n.self.states.state, IDLE), tracker_inv(n.self)), ("C10", "C06")))
+    if "inv.step" not in have:
+        c.ensures.append(Clause("inv.step", lambda o, n, r: Implies_(ne(n.self.states.state, IDLE), step_inv(n.self)), ("C10", "C03")))
+    have = {cl.label for cl in c.ensures}
+    for cl in inv_clauses(("C10",)):
+        if cl.label not in have:
+            c.ensures.append(cl)
+    c.assumed_requires = set(c.assumed_requires) | {"DestInvTracker", "DestStepInv"}
+
+
+for _c in CONTRACTS:
+    if any(_c.fq.endswith("DestHandler." + nm) for nm in _FSM_SUMMARISED) and _c.instance is None:
+        _strengthen(_c)
